@@ -3,6 +3,9 @@ import O2P.Model.Time
 import O2P.Model.Seq
 import O2P.Model.Store
 import O2P.Model.Jq
+import O2P.Model.Diagram
+import O2P.Model.Learn
+import O2P.Props.C07
 /-!
 Model driver: one JSON request per line on stdin, one JSON reply per line on stdout.
 Numbers that may exceed 2^53 travel as decimal strings.
@@ -316,6 +319,199 @@ def run (j : Json) : Except String Json := do
 
 end JqOps
 
+namespace DgOps
+open O2P.Diagram
+
+def opStr : Op → String
+  | .and => "AND"
+  | .or => "OR"
+  | .xor => "XOR"
+
+partial def blkJson : Blk → Json
+  | .ev n => Json.arr #["ev", Json.str n]
+  | .seq l => Json.arr #["seq", Json.arr (l.map blkJson).toArray]
+  | .fork op bs => Json.arr #["fork", Json.str (opStr op), Json.arr (bs.map blkJson).toArray]
+  | .loop b => Json.arr #["loop", blkJson b]
+  | .brk => Json.arr #["brk"]
+  | .detach => Json.arr #["detach"]
+
+partial def blkOfJson (j : Json) : Except String Blk := do
+  match j with
+  | .arr #[.str "ev", .str n] => pure (.ev n)
+  | .arr #[.str "seq", .arr l] => do pure (.seq (← l.toList.mapM blkOfJson))
+  | .arr #[.str "fork", .str o, .arr l] => do
+    let op ← match o with
+      | "AND" => pure Op.and
+      | "OR" => pure Op.or
+      | "XOR" => pure Op.xor
+      | _ => throw "bad operator"
+    pure (.fork op (← l.toList.mapM blkOfJson))
+  | .arr #[.str "loop", b] => do pure (.loop (← blkOfJson b))
+  | .arr #[.str "brk"] => pure .brk
+  | .arr #[.str "detach"] => pure .detach
+  | _ => throw "bad block"
+
+/-- a definition is given as text (`text`) or as a block (`blk`) -/
+def getDef (j : Json) (textKey blkKey : String) : Except String Blk :=
+  match j.getObjVal? textKey with
+  | .ok (.str t) => match parse t with
+    | .ok b => pure b
+    | .error e => throw s!"parse: {e}"
+  | _ => match j.getObjVal? blkKey with
+    | .ok b => blkOfJson b
+    | .error _ => throw s!"missing {textKey}/{blkKey}"
+
+def jobJson (jb : Job) : Json :=
+  Json.arr (jb.map fun n => Json.mkObj [("id", Json.num (JsonNumber.fromNat n.id)), ("typ", n.typ),
+    ("prev", Json.arr (n.prev.map fun p => Json.num (JsonNumber.fromNat p)).toArray)]).toArray
+
+def jobOfJson (j : Json) : Except String Job := do
+  match j with
+  | .arr ns => ns.toList.mapM fun n => do
+      let id ← match n.getObjVal? "id" with
+        | .ok v => match v.getNat? with
+          | .ok k => pure k
+          | .error _ => throw "bad id"
+        | .error _ => throw "missing id"
+      let typ ← getStr n "typ"
+      let prev ← (← getArr n "prev").toList.mapM fun p => match p.getNat? with
+        | .ok k => pure k
+        | .error _ => throw "bad prev"
+      pure ({ id, typ, prev } : JNode)
+  | _ => throw "job must be an array"
+
+def getK (j : Json) : Nat := match j.getObjVal? "k" with
+  | .ok v => (v.getNat?.toOption).getD 1
+  | .error _ => 1
+
+def getCap (j : Json) : Nat := match j.getObjVal? "cap" with
+  | .ok v => (v.getNat?.toOption).getD 100000
+  | .error _ => 100000
+
+def opParse (j : Json) : Except String Json := do
+  let t ← getStr j "text"
+  match parse t with
+  | .ok b => pure <| Json.mkObj [("ok", true), ("blk", blkJson b), ("names", Json.arr ((names b).map Json.str).toArray)]
+  | .error e => pure <| Json.mkObj [("ok", false), ("error", e)]
+
+def tooMany (k : Nat) (d : Blk) (limit : Nat) : Except String Unit :=
+  if countUB k d > limit then throw s!"too-many-runs {countUB k d}" else pure ()
+
+def getLimit (j : Json) : Nat := match j.getObjVal? "limit" with
+  | .ok v => (v.getNat?.toOption).getD 20000
+  | .error _ => 20000
+
+def opRuns (j : Json) : Except String Json := do
+  let d ← getDef j "text" "blk"
+  tooMany (getK j) d (getLimit j)
+  let rs := runs (getK j) d
+  pure <| Json.mkObj [("count", Json.num rs.length), ("jobs", Json.arr ((rs.take (getCap j)).map jobJson).toArray)]
+
+/-- which of the given jobs does the definition accept (loops up to `k`) -/
+def opAccepts (j : Json) : Except String Json := do
+  let d ← getDef j "text" "blk"
+  let k := getK j
+  tooMany k d (getLimit j)
+  let rs := runs k d
+  let jobs ← (← getArr j "jobs").toList.mapM jobOfJson
+  let res := jobs.map fun jb =>
+    let key := typeKey jb
+    rs.any fun r => r.length == jb.length && typeKey r == key && isoB r jb
+  pure <| Json.mkObj [("runs", Json.num rs.length), ("accepted", Json.arr (res.map Json.bool).toArray)]
+
+/-- is every job of `learned` (loops up to `k`, at most `cap` of them, evenly spread) a job of `source` -/
+def opSubset (j : Json) : Except String Json := do
+  let learned ← getDef j "learned_text" "learned"
+  let source ← getDef j "source_text" "source"
+  let k := getK j
+  let cap := getCap j
+  tooMany k learned (getLimit j)
+  tooMany k source (getLimit j)
+  let lr := runs k learned
+  let sr := runs k source
+  let stride := if lr.length ≤ cap then 1 else lr.length / cap + 1
+  let sample := (lr.zipIdx.filter fun (_, i) => i % stride == 0).map (·.1)
+  let bad := sample.filter fun jb =>
+    let key := typeKey jb
+    !(sr.any fun r => r.length == jb.length && typeKey r == key && isoB r jb)
+  pure <| Json.mkObj [("learned_runs", Json.num lr.length), ("source_runs", Json.num sr.length),
+    ("checked", Json.num sample.length), ("rejected", Json.num bad.length),
+    ("first_rejected", match bad.head? with
+      | some b => jobJson b
+      | none => Json.null)]
+
+end DgOps
+
+namespace LearnOps
+open O2P.Learn
+
+def parsePV (j : Json) : Except String PV := do
+  let prev ← match j.getObjVal? "previousEventIds" with
+    | .ok (.arr a) => strList a
+    | .ok (.str s) => pure [s]
+    | _ => pure []
+  pure { jobId := ← getStr j "jobId", eventId := ← getStr j "eventId", typ := ← getStr j "eventType", prev }
+
+def esetJson (s : ESet) : Json := Json.arr (s.map Json.str).toArray
+
+def modelJson (m : Model) : Json :=
+  Json.arr (m.map fun e => Json.mkObj [("typ", e.typ), ("outs", Json.arr (e.outs.map esetJson).toArray),
+    ("ins", Json.arr (e.ins.map esetJson).toArray)]).toArray
+
+/-- ingest chunks of jobs; with `through_files` every chunk boundary crosses toJson/fromJson -/
+def opIngest (j : Json) : Except String Json := do
+  let chunks ← (← getArr j "chunks").toList.mapM fun c => match c with
+    | .arr jobs => jobs.toList.mapM fun jb => match jb with
+      | .arr evs => evs.toList.mapM parsePV
+      | _ => throw "job must be an array"
+    | _ => throw "chunk must be an array"
+  let through := match j.getObjVal? "through_files" with
+    | .ok (.bool b) => b
+    | _ => false
+  if chunks.any fun c => c.any fun jb => !wfJob jb then
+    return Json.mkObj [("status", "malformed-job")]
+  let mut m : Model := []
+  for c in chunks do
+    m := ingest m c
+    if through then
+      match fromJson (toJson m) with
+      | some m' => m := m'
+      | none => return Json.mkObj [("status", "duplicate-type")]
+  pure <| Json.mkObj [("status", "ok"), ("model", modelJson m),
+    ("file", Json.arr ((toJson m).map fun e => Json.mkObj [("eventType", e.typ),
+      ("outgoingEventSets", Json.arr (e.outs.map fun s => Json.arr (s.map fun (t, n) =>
+        Json.mkObj [("eventType", t), ("count", Json.num n)]).toArray).toArray),
+      ("incomingEventSets", Json.arr (e.ins.map fun s => Json.arr (s.map fun (t, n) =>
+        Json.mkObj [("eventType", t), ("count", Json.num n)]).toArray).toArray)]).toArray)]
+
+end LearnOps
+
+namespace GraphOps
+open O2P.Graph
+
+def edgesOf (j : Json) (k : String) : Except String (List Edge) := do pairList (← getArr j k)
+
+def run (j : Json) : Except String Json := do
+  let kind ← getStr j "kind"
+  match kind with
+  | "topo" => do
+    let ord ← strList (← getArr j "ord")
+    pure <| Json.mkObj [("ok", isTopo ord (← edgesOf j "edges"))]
+  | "contract" => do
+    let ord ← strList (← getArr j "ord")
+    let pm ← pairList (← getArr j "part")
+    let part : String → String := fun x => match pm.find? (·.1 == x) with
+      | some p => p.2
+      | none => x
+    pure <| Json.mkObj [("ok", contractOK part ord (← edgesOf j "edges"))]
+  | "once" => do
+    pure <| Json.mkObj [("ok", exactlyOnce (← strList (← getArr j "leaves")) (← strList (← getArr j "inputs")))]
+  | "entry" => do
+    pure <| Json.mkObj [("ok", singleEntry (← strList (← getArr j "nodes")) (← edgesOf j "edges"))]
+  | _ => throw "unknown graph check"
+
+end GraphOps
+
 def handle (j : Json) : Except String Json := do
   let op ← getStr j "op"
   match op with
@@ -325,6 +521,12 @@ def handle (j : Json) : Except String Json := do
   | "seq.job" => SeqOps.job j
   | "store.script" => StoreOps.script j
   | "jq.run" => JqOps.run j
+  | "dg.parse" => DgOps.opParse j
+  | "dg.runs" => DgOps.opRuns j
+  | "dg.accepts" => DgOps.opAccepts j
+  | "dg.subset" => DgOps.opSubset j
+  | "learn.ingest" => LearnOps.opIngest j
+  | "graph.check" => GraphOps.run j
   | _ => throw s!"unknown op {op}"
 
 partial def loop (h : IO.FS.Stream) (out : IO.FS.Stream) : IO Unit := do
